@@ -83,3 +83,56 @@ func runStoreChurn(r *rand.Rand, owners, opsPer, churnOps, resident int) [][]Eve
 	wg.Wait()
 	return logs
 }
+
+// runStoreClearStress: one goroutine (the judged owner) keeps filling the store with a large Merge - three keys of its
+// own plus ballast - and emptying it with Clear, and asks about its own keys after every step; another goroutine keeps
+// writing a key of its own all the time.  Nobody else writes the owner's keys, so the owner's log over its own keys
+// (Merge, Clear, Has, Get) must be a correct sequential history: in particular a Clear that has returned is not undone.
+func runStoreClearStress(r *rand.Rand, rounds, ballast int) []Event {
+	s := flyt.NewSharedStore()
+	var stop atomic.Bool
+	var wg sync.WaitGroup
+	wg.Add(1)
+	go func() {
+		defer wg.Done()
+		for i := 0; !stop.Load(); i++ {
+			s.Set(keyName(7), i)
+			if i%64 == 0 {
+				runtime.Gosched()
+			}
+		}
+	}()
+	var log []Event
+	rec := func(o storeOp, res map[string]any) {
+		log = append(log, Event{"ev": "op", "op": o.Op, "k": o.K, "v": o.V, "m": mJSON(o.M), "d": o.D, "res": res, "snap": 0})
+	}
+	base := 10
+	for i := 0; i < rounds; i++ {
+		o := storeOp{Op: "merge"}
+		arg := map[string]any{}
+		for k := base + 1; k <= base+3; k++ {
+			v := randStoreValTok(r)
+			o.M = append(o.M, [2]int{k, v})
+			arg[keyName(k)] = storeVal(v)
+		}
+		for j := 0; j < ballast; j++ {
+			arg[keyName(300000+j)] = j
+		}
+		s.Merge(arg)
+		rec(o, noRes())
+		q := storeOp{Op: "get", K: base + 1 + r.Intn(3)}
+		res, _ := applyStoreOp(s, q)
+		rec(q, res)
+		cl := storeOp{Op: "clear"}
+		res, _ = applyStoreOp(s, cl)
+		rec(cl, res)
+		for _, op := range []string{"has", "get"} {
+			q := storeOp{Op: op, K: base + 1 + r.Intn(3)}
+			res, _ := applyStoreOp(s, q)
+			rec(q, res)
+		}
+	}
+	stop.Store(true)
+	wg.Wait()
+	return log
+}
